@@ -21,6 +21,11 @@ CLAIMED = {
             "The finite catalogue container kind x iterating construct x mutating operation x alias x way of leaving (exhaustion, break, return, continue, injected fault / failing mutation / cancellation / tick budget / depth overflow / natural error at iteration i, failing eager consumer) is enumerated completely by thorough (quick: a seeded eighth). While the construct is active the mutation must fail and leave the container intact; once it has been left - in the same evaluation or, after an error caught by the host, in the next evaluation on the same module - the mutation must succeed and give what it gives on a never-iterated container.",
             "Exhaustive within the stated catalogue only (17.6k cells); constructs or mutators outside the catalogue are not covered. The reference is the real implementation on a never-iterated container.",
             "DESIGN.md §6 C12"),
+    "C15": ("fault_enumeration",
+            "deterministic simulation with the evaluator tick counter as simulated clock: budgets enumerated around T and every 1000-tick boundary, cancellation injected at chosen tick positions through a per-tick hook, call-depth limit x depth sweeps on every call path",
+            "For generated loop/call programs whose cost T is measured by a limit-free run (optionally after a prelude evaluation that shifts the 1000-tick phase), every budget in the boundary set must give error <=> cumulative ticks > budget, overshoot <= 1000, a prefix transcript, unchanged behaviour within the limit and a re-usable evaluator; cancellation raised at chosen tick positions (per-tick hook), at the n-th poll, or from inside the program must be honoured within 1000 ticks in the same evaluation; for 16 recursion shapes x limits {1,2,3,5,10,50,200} all depths around the threshold must show a single threshold, StackOverflow as the error, the same threshold on all pure-def call paths, and unbounded recursion must never crash. Tick counts must be repeatable, linear in loop bounds and count every call path.",
+            "T is measured, not assumed; the documented check interval (1000) is the only constant. Native-callback paths are only bounded (they may use several frames per level). check_tick_count_limit()'s result type is not exported, only its presence is checked.",
+            "DESIGN.md §6 C15"),
 }
 
 NOT_APPLICABLE = {
@@ -41,7 +46,6 @@ PENDING = {
     "C11": "claimed in DESIGN.md but its check is not built yet in this commit; not claimed until it is",
     "C13": "claimed in DESIGN.md but its check is not built yet in this commit; not claimed until it is",
     "C14": "claimed in DESIGN.md but its check is not built yet in this commit; not claimed until it is",
-    "C15": "claimed in DESIGN.md but its check is not built yet in this commit; not claimed until it is",
     "C18": "claimed in DESIGN.md but its check is not built yet in this commit; not claimed until it is",
     "C19": "claimed in DESIGN.md but its check is not built yet in this commit; not claimed until it is",
     "C20": "claimed in DESIGN.md but its check is not built yet in this commit; not claimed until it is",
